@@ -210,7 +210,10 @@ func (x *Exec) execInstr(fr *Frame, ins ssa.Instruction) {
 		case cp.hi < 1<<12:
 			n = int(cp.hi)
 		default:
-			notEncodable("make([]T) with unbounded symbolic capacity at %s", x.framePos(fr, i.Pos()))
+			// unbounded symbolic size: allocate the harness-wide slice bound and require (unwinding-style) that it suffices
+			n = x.sliceBound
+			x.addObl("unwind", fmt.Sprintf("make([]T, n) at %s needs more than the slice bound %d", x.framePos(fr, i.Pos()), n), x.framePos(fr, i.Pos()), mkAnd(fr.cur, mkCmp(OSlt, mkConst(64, uint64(n)), cp)), ts.False)
+			x.dead = mkOr(x.dead, mkAnd(fr.cur, mkCmp(OSlt, mkConst(64, uint64(n)), cp)))
 		}
 		if n < 0 || n > 1<<14 {
 			notEncodable("make([]T, %d) too large at %s", n, x.framePos(fr, i.Pos()))
